@@ -14,7 +14,12 @@ for an absent key, attestations [0x17] keyed by (nonce, claim hash id) with orde
 
 Environment inputs carried by the ops (dependencies that are not modelled): `dep` = the bank / staking calls of the handler
 succeeded; `ubd`/`bal` = an unbonding delegation of the oracle's delegate address exists / its balance; the oracles slashed
-by an end block and whether it stored a new oracle set; whether the deferred handler of `executeClaim` fails.
+by an end block and whether it stored a new oracle set; how the deferred handler of `executeClaim` ends (`Outcome`) and
+the forest of `executeClaim` calls the called-back contract makes while the handler is still running (`Calls`).
+
+`ExecuteClaim` is NOT atomic in this model: look-up, deletion of the parked entry, the handler's effects, the re-entrant
+calls made from inside the handler, and the handler's result are separate steps, taken in the order the extractor reads
+off `ExecuteClaim` (`execDeletesBeforeHandler`); the enclosing native action / cache context roll-backs are explicit.
 
 Every guard that is read off the Go AST by `go/extract/c01.go` enters `step` through its `Gen.C01` flag, so the theorems
 are about the guards the code has now.
@@ -99,6 +104,22 @@ inductive Kind where
   | oracleSet (members : List Nat)  -- MsgOracleSetUpdatedClaim with these member external addresses
   deriving DecidableEq, Repr
 
+/-- how the deferred handler of one `ExecuteClaim` call ends:
+`ok`     — the handler returns nil (for a bridge call: the contract call succeeded, its cache context is committed);
+`refund` — `BridgeCallHandler` only: the contract call failed, its cache context (with everything the nested calls did)
+           is dropped, the tokens are refunded, the handler returns nil;
+`fail`   — the handler returns an error: the precompile's native action is reverted as a whole -/
+inductive Outcome where
+  | ok | refund | fail
+  deriving DecidableEq, Repr
+
+/-- a forest of `executeClaim(chain, n)` calls (first child / next sibling): each call has the forest `inner` of calls the
+called-back contract makes while that call's handler is running, and is followed by the calls `next` -/
+inductive Calls where
+  | nil
+  | call (n : Nat) (o : Outcome) (inner next : Calls)
+  deriving DecidableEq, Repr
+
 inductive Op where
   | claim (wrapper inner nonce hash : Nat) (kind : Kind) (extHeight : Nat)
   | bond (oracle bridger ext amount : Nat) (dep : Bool)
@@ -107,7 +128,7 @@ inductive Op where
   | unbond (oracle : Nat) (ubd : Bool) (bal : Nat) (dep : Bool)
   | gov (oracles : List Nat) (dep : Bool)
   | endBlock (slashed : List Nat) (oracleSetReq : Bool)
-  | exec (nonce : Nat) (fails : Bool)
+  | exec (nonce : Nat) (o : Outcome) (inner : Calls)
   deriving Repr
 
 inductive Out where
@@ -123,6 +144,16 @@ def onlinePower : Map Oracle → Nat
 
 def refresh (s : State) : State := { s with lastTotalPower := onlinePower s.oracles }
 
+/-- `SetLastTotalPower` as the handler places it (regenerated `RefreshRule`): `old` is the state before the oracle record
+was stored, `s'` the state after; `pos` = the guard `delegateCoin.IsPositive()` of the conditional form -/
+def applyRefresh (rule : RefreshRule) (pos : Bool) (old s' : State) : State :=
+  match rule with
+  | .afterStore => refresh s'
+  | .beforeStore => { s' with lastTotalPower := onlinePower old.oracles }
+  | .ifPositiveAfterStore => if pos then refresh s' else s'
+  | .other => s'
+  | .none => s'
+
 /-- power a vote contributes in `TryAttestation`: 0 when the address is not a registered oracle -/
 def powerOf (m : Map Oracle) (v : Nat) : Nat :=
   match m.get v with
@@ -133,8 +164,9 @@ def votePower (m : Map Oracle) : List Nat → Nat
   | [] => 0
   | v :: vs => powerOf m v + votePower m vs
 
-/-- `requiredPower := AttestationVotesPowerThreshold.Mul(totalPower).Quo(NewInt(100))` -/
-def required (total : Nat) : Nat := votesThreshold * total / votesDivisor
+/-- `requiredPower := AttestationVotesPowerThreshold.Mul(totalPower).Quo(NewInt(100))` — the expression the extractor
+reads off `TryAttestation` now (helper functions inlined), evaluated -/
+def required (total : Nat) : Nat := requiredExpr.eval votesThreshold total
 
 /-- `attestationPower.LT(requiredPower)` → keep summing -/
 def below (acc req : Nat) : Bool :=
@@ -183,8 +215,8 @@ def logicCheck (s : State) : Kind → Bool
 def tryAttest (s : State) (att : Att) (kind : Kind) : State :=
   if tally s.oracles (required s.lastTotalPower) att.votes 0 then
     let s1 : State := { s with
-      lastObserved := att.nonce
-      atts := setAtt s.atts { att with observed := true }
+      lastObserved := if observeSetsLastObserved then att.nonce else s.lastObserved   -- SetLastObservedEventNonce, unconditional
+      atts := if observeMarksObserved then setAtt s.atts { att with observed := true } else s.atts
       observedLog := s.observedLog ++ [(att.nonce, att.hash)] }
     let s2 : State := match kind with
       | .pending => { s1 with pending := insertNonce s1.pending att.nonce }   -- SavePendingExecuteClaim
@@ -240,12 +272,7 @@ def bondStep (s : State) (o b e amt : Nat) (dep : Bool) : State × Out :=
   if amt < s.params.threshold then (s, .belowMin) else
   if s.params.threshold * s.params.multiple < amt then (s, .aboveMax) else
   if !dep then (s, .dep) else
-  if refreshOnBond
-  then (refresh { s with
-    oracles := s.oracles.set o { bridger := b, ext := e, stake := amt, online := true, slashTimes := 0 }
-    byBridger := s.byBridger.set b o
-    byExt := s.byExt.set e o }, .ok)
-  else ({ s with
+  (applyRefresh bondRefreshRule true s { s with
     oracles := s.oracles.set o { bridger := b, ext := e, stake := amt, online := true, slashTimes := 0 }
     byBridger := s.byBridger.set b o
     byExt := s.byExt.set e o }, .ok)
@@ -253,18 +280,23 @@ def bondStep (s : State) (o b e amt : Nat) (dep : Bool) : State × Out :=
 /-- `AddDelegate` once the oracle is found; `sl` is its pending slash amount -/
 def addDelegateTo (s : State) (o : Nat) (orc : Oracle) (sl amt : Nat) (dep : Bool) : State × Out :=
   if 0 < sl && amt < sl then (s, .invalid) else
+  if s.params.threshold * s.params.multiple < amt - sl then (s, .aboveMax) else   -- the addition alone exceeds the maximum
   if orc.stake + (amt - sl) < s.params.threshold then (s, .belowMin) else
   if s.params.threshold * s.params.multiple < orc.stake + (amt - sl) then (s, .aboveMax) else
   if !dep then (s, .dep) else
-  if refreshOnAddDelegate
-  then (refresh { s with oracles := s.oracles.set o { orc with stake := orc.stake + (amt - sl), online := true, slashTimes := 0 } }, .ok)
-  else ({ s with oracles := s.oracles.set o { orc with stake := orc.stake + (amt - sl), online := true, slashTimes := 0 } }, .ok)
+  (applyRefresh addDelegateRefreshRule (decide (0 < amt - sl)) s
+    { s with oracles := s.oracles.set o { orc with stake := orc.stake + (amt - sl), online := true, slashTimes := 0 } }, .ok)
 
 def addDelegateStep (s : State) (o amt : Nat) (dep : Bool) : State × Out :=
   if !s.proposal.contains o then (s, .noOracle) else
   match s.oracles.get o with
   | none => (s, .noOracle)
   | some orc => addDelegateTo s o orc (orc.slashAmount s.params.slashFrac) amt dep
+
+/-- the bridger index after `EditBridger`: `DelOracleAddrByBridgerAddr(oracle.GetBridger())` runs BEFORE the record's bridger
+is overwritten (regenerated order); the other way round it deletes the entry of the NEW bridger and keeps the old one -/
+def editIndex (m : Map Nat) (old b o : Nat) : Map Nat :=
+  (m.del (if editBridgerDeletesOldIndexFirst then old else b)).set b o
 
 def editBridgerStep (s : State) (o b : Nat) : State × Out :=
   match s.oracles.get o with
@@ -275,7 +307,7 @@ def editBridgerStep (s : State) (o b : Nat) : State × Out :=
     if (s.byBridger.get b).isSome then (s, .invalid) else
     ({ s with
         oracles := s.oracles.set o { orc with bridger := b }
-        byBridger := (s.byBridger.del orc.bridger).set b o }, .ok)
+        byBridger := editIndex s.byBridger orc.bridger b o }, .ok)
 
 /-- what a successful `UnbondedOracle` does to the store -/
 def unbondApply (s : State) (o : Nat) (orc : Oracle) : State :=
@@ -327,12 +359,47 @@ def endBlockStep (s : State) (slashed : List Nat) (osr : Bool) : State × Out :=
   then (refresh { s with oracles := slashed.foldl slashOne s.oracles }, .ok)
   else ({ s with oracles := slashed.foldl slashOne s.oracles }, .ok)
 
-/-- `ExecuteClaim` called through the precompile: delete-then-run; a handler error makes the EVM revert the native
-action, which restores the deleted entry -/
-def execStep (s : State) (n : Nat) (fails : Bool) : State × Out :=
-  if !s.pending.contains n then (s, .notFound) else
-  if fails then (s, .execFailed) else   -- the entry deleted before the handler ran is restored by the revert
-  ({ s with pending := s.pending.filter (fun m => m != n), executedLog := s.executedLog ++ [n] }, .ok)
+/-! ## deferred execution (`ExecuteClaim` through the `executeClaim` precompile), with re-entrancy -/
+
+/-- the two store components `ExecuteClaim` and its handlers touch in this model: the parked claims [0x54] and the ghost
+log of handler effects -/
+structure Px where
+  pending : List Nat
+  log : List Nat
+  deriving DecidableEq, Repr
+
+/-- `DeletePendingExecuteClaim` (nothing if `ExecuteClaim` has no such call) -/
+def delPending (l : List Nat) (n : Nat) : List Nat := if execDeletesPending then l.filter (fun m => m != n) else l
+
+/-- a forest of `ExecuteClaim` calls, each step in source order.  `df` = the parked entry is deleted BEFORE the handler runs.
+For one call: (1) `GetPendingExecuteClaim` — not found: error, nothing happens, the contract is not called;
+(2) if `df`: delete the entry; (3) the handler's own effects (ghost: `log ++ [n]`); (4) the called-back contract makes
+the calls `inner`; (5) the handler ends: `fail` → the whole native action is reverted (state as before the call),
+`refund` → the contract call's cache context is dropped (state as after (3)) and the claim is consumed,
+`ok` → everything is kept; (6) if not `df`: delete the entry now. -/
+def execCallsWith (df : Bool) (p : Px) : Calls → Px
+  | .nil => p
+  | .call n o inner next =>
+    let p' : Px :=
+      if execChecksPending && !p.pending.contains n then p else
+      let p1 : Px := { pending := if df then delPending p.pending n else p.pending, log := p.log ++ [n] }
+      match o with
+      | .fail => p
+      | .refund => { pending := delPending p.pending n, log := p.log ++ [n] }
+      | .ok =>
+        let p2 := execCallsWith df p1 inner
+        { p2 with pending := if df then p2.pending else delPending p2.pending n }
+    execCallsWith df p' next
+
+/-- the order of the source -/
+def execCalls (p : Px) (c : Calls) : Px := execCallsWith execDeletesBeforeHandler p c
+
+/-- `executeClaim(chain, n)` sent to the precompile by an externally owned account -/
+def execStep (s : State) (n : Nat) (o : Outcome) (inner : Calls) : State × Out :=
+  if execChecksPending && !s.pending.contains n then (s, .notFound) else
+  if o = .fail then (s, .execFailed) else
+  let p := execCalls { pending := s.pending, log := s.executedLog } (.call n o inner .nil)
+  ({ s with pending := p.pending, executedLog := p.log }, .ok)
 
 def step (s : State) : Op → State × Out
   | .claim w i n h k _ => claimStep s w i n h k
@@ -342,7 +409,7 @@ def step (s : State) : Op → State × Out
   | .unbond o u bal d => unbondStep s o u bal d
   | .gov l d => govStep s l d
   | .endBlock sl osr => endBlockStep s sl osr
-  | .exec n f => execStep s n f
+  | .exec n o c => execStep s n o c
 
 /-- no `BondedOracle` of the history targets an oracle whose last nonce was deleted by an earlier `UnbondedOracle`
 (i.e. there is no unbond → re-bond of the same oracle address) -/
